@@ -19,40 +19,44 @@ Proof. exact precancelled_fails. Qed.
 Print Assumptions C10_precancelled_fails.
 
 (* Cancelling at any time: the read either finishes — and then no poll ever saw the
-   cancellation — or returns the context's error (an input error only from the pre-checks).
+   cancellation — or returns the context's error.  The only input error is the one of the
+   pre-checks, returned before any poll was made (st = st0).
    s_entries <> []: the xref table always has entry 0. *)
 Theorem C10_cancel_any_time : forall s poll e, mono poll ->
   (forall i e', poll i = Some e' -> e' = e) -> s_entries s <> [] ->
   forall o st, read poll s = (o, st) ->
-  (o = Done /\ late st = 0) \/ o = CtxErr e \/ (o = InErr /\ s_prefail s = true).
+  (o = Done /\ late st = 0) \/ o = CtxErr e \/ (o = InErr /\ s_prefail s = true /\ st = st0).
 Proof. exact cancel_any_time. Qed.
 Print Assumptions C10_cancel_any_time.
 
-(* FULL statement wanted: forall s, late polls <= stage_bound (work after the cancellation
-   became visible is bounded by the number of enclosing stages, not by the input).
-   It is REFUTED for relaxed reads whose xref chain has an xref stream (below); proved for
-   every other shape. *)
-Theorem C10_late_polls_bounded_partial : forall s poll, mono poll -> repair_swallows s = false ->
-  late (snd (read poll s)) <= stage_bound.
-Proof. exact late_polls_bounded_partial. Qed.
-Print Assumptions C10_late_polls_bounded_partial.
+(* Also for documents WITH input errors (any program p, q, r): where the reader decides between
+   giving up and falling back (relaxed re-parse, xref repair, skipping a malformed object), a
+   cancelled context makes it return the context's error, whatever error was pending
+   (pdfcpu adbdecb6; before, the pending input error was returned: harness class
+   cancel-at-probe-returns-input-error). *)
+Theorem C10_probe_returns_context_error : forall poll p q r s o s1 e,
+  run poll p s = (o, s1) -> o <> Done -> poll (polls s1) = Some e ->
+  run poll (Retry p q r) s = (CtxErr e, tick_late s1).
+Proof. exact probe_returns_context_error. Qed.
+Print Assumptions C10_probe_returns_context_error.
 
-(* Defect (read.go parseXRefStreamOrRepair + processObject): for every n there is a document
-   and a cancellation point after which the read still makes more than n polls that all see
-   the cancelled context: the context error starts the xref repair, which swallows it once
-   per object of the file. *)
-Theorem C10_late_polls_refuted : forall e n, exists s k,
-  repair_swallows s = true /\ mono (flip_at (Some k) e) /\
-  N.of_nat n < late (snd (read (flip_at (Some k) e) s)).
-Proof. exact late_polls_refuted. Qed.
-Print Assumptions C10_late_polls_refuted.
+(* Work after the cancellation became visible: for EVERY document shape, mode and monotone
+   context at most stage_bound (= 6) polls see the cancelled context — a bound by the number
+   of enclosing stages, independent of the size of the input.  (Until pdfcpu commit 1364969e
+   this was refuted for relaxed reads with an xref stream: defect cancel-swallowed-by-xref-repair.) *)
+Theorem C10_late_polls_bounded : forall s poll, mono poll ->
+  late (snd (read poll s)) <= stage_bound.
+Proof. exact late_polls_bounded. Qed.
+Print Assumptions C10_late_polls_bounded.
 
 (* non-vacuity *)
 Example C10_nonvacuous :
-  let s := mkshape true false false [STable 3] [] 0 [mkos (mkfo 0 2 0 false) 4]
+  let s := mkshape true false false [STable 3; SStream (mkfo 0 2 0 false)] [FObj (mkfo 0 1 0 false)] 0
+                   [mkos (mkfo 0 2 0 false) 4]
                    [EFree; EParse (mkfo 1 3 1 false); ECached] in
-  mono (flip_at (Some 7) 9) /\ repair_swallows s = false /\
-  read (flip_at None 9) s = (Done, mkst 23 0) /\
-  read (flip_at (Some 16) 9) s = (CtxErr 9, mkst 19 3) /\
+  mono (flip_at (Some 7) 9) /\
+  read (flip_at None 9) s = (Done, mkst 27 0) /\
+  read (flip_at (Some 6) 9) s = (CtxErr 9, mkst 9 3) /\      (* cancelled in the xref stream: no repair *)
+  read (flip_at (Some 20) 9) s = (CtxErr 9, mkst 23 3) /\
   read (flip_at (Some 0) 9) s = (CtxErr 9, mkst 1 1).
 Proof. split; [apply flip_at_mono|]. vm_compute. repeat split. Qed.
